@@ -286,6 +286,7 @@ func streamPool(seed uint64, n int) (*Summary, error) {
 		sum.addViolation("C07", Mismatch{Case: "Struct{name, email} parsed into handler-local `type form struct{Name `zog:\"full_name\"`; Email}` and then into another handler-local `type form struct{Email `zog:\"mail\"`; Name}`", What: "the result of a call depends on the destination type an EARLIER call with the same schema used", Impl: diff})
 	}
 	poolBalanceProbe(sum)
+	nestedCallProbe(sum)
 	for i := 0; i < n; i++ {
 		if i%100 == 99 {
 			runtime.GC() // the collector is off while a probe runs; collect between probes (every probe starts from cleared pools)
@@ -513,6 +514,138 @@ func poolBalanceProbe(sum *Summary) {
 			}
 		}
 		sum.Hist["pool_balance_entry_points"]++
+	}
+	p.ClearPools()
+}
+
+// nestedCallProbe (C07): a user callback may run ANOTHER schema (delegate to it). Every entry point is executed
+// with a callback that does so and with one that does not; the two results must be equal, and an unrelated call
+// afterwards must be what it is on cleared pools.
+func nestedCallProbe(sum *Summary) {
+	type in struct{ City string }
+	inner := z.Struct(z.Schema{"city": z.String().Required().Min(9)})
+	nest := func() {
+		var d in
+		inner.Parse(map[string]any{"city": "x"}, &d)
+		dd := in{City: "y"}
+		inner.Validate(&dd)
+		var s string
+		z.String().Min(7).Parse("ab", &s)
+	}
+	type rec struct {
+		Name string
+		Tags []string
+	}
+	canonL := func(l z.ZogIssueList) string {
+		out := []string{}
+		for _, is := range l {
+			out = append(out, fmt.Sprintf("%s|%s|%s", is.Path, is.Code, is.Message))
+		}
+		sort.Strings(out)
+		return fmt.Sprint(out)
+	}
+	canonM := func(m z.ZogIssueMap) string {
+		out := []string{}
+		for k, l := range m {
+			if k == "$first" {
+				continue
+			}
+			for _, is := range l {
+				out = append(out, fmt.Sprintf("%s=%s|%s|%s", k, is.Path, is.Code, is.Message))
+			}
+		}
+		sort.Strings(out)
+		return fmt.Sprint(out)
+	}
+	// every entry point, parameterised by the callback its tests / transforms call first
+	eps := []struct {
+		name string
+		run  func(cb func()) string
+	}{
+		{"String.Parse", func(cb func()) string {
+			var d string
+			return canonL(z.String().TestFunc(func(v any, c z.Ctx) bool { cb(); return true }).Min(5).Parse("ab", &d))
+		}},
+		{"String.Validate", func(cb func()) string {
+			d := "ab"
+			return canonL(z.String().TestFunc(func(v any, c z.Ctx) bool { cb(); return true }).Min(5).Validate(&d))
+		}},
+		{"Int.Parse", func(cb func()) string {
+			var d int
+			return canonL(z.Int().TestFunc(func(v any, c z.Ctx) bool { cb(); return true }).GT(5).Parse(1, &d))
+		}},
+		{"Time.Validate", func(cb func()) string {
+			d := time.Unix(5, 0)
+			return canonL(z.Time().TestFunc(func(v any, c z.Ctx) bool { cb(); return true }).After(time.Unix(9, 0)).Validate(&d))
+		}},
+		{"Bool.Validate", func(cb func()) string {
+			d := true
+			return canonL(z.Bool().TestFunc(func(v any, c z.Ctx) bool { cb(); return true }).False().Validate(&d))
+		}},
+		{"Slice.Parse", func(cb func()) string {
+			var d []string
+			return canonM(z.Slice(z.String().TestFunc(func(v any, c z.Ctx) bool { cb(); return true }).Min(2)).Parse([]any{"ok", "a", "b"}, &d))
+		}},
+		{"Slice.Validate", func(cb func()) string {
+			d := []string{"ok", "a", "b"}
+			return canonM(z.Slice(z.String().TestFunc(func(v any, c z.Ctx) bool { cb(); return true }).Min(2)).Validate(&d))
+		}},
+		{"Struct.Parse", func(cb func()) string {
+			var d rec
+			s := z.Struct(z.Schema{"name": z.String().TestFunc(func(v any, c z.Ctx) bool { cb(); return true }).Min(3), "tags": z.Slice(z.String().Min(2))})
+			return canonM(s.Parse(map[string]any{"name": "x", "tags": []any{"a", "bb", "c"}}, &d))
+		}},
+		{"Struct.Validate", func(cb func()) string {
+			d := rec{Name: "x", Tags: []string{"a", "bb", "c"}}
+			s := z.Struct(z.Schema{"name": z.String().Min(3), "tags": z.Slice(z.String().TestFunc(func(v any, c z.Ctx) bool { cb(); return true }).Min(2))})
+			return canonM(s.Validate(&d))
+		}},
+		{"Ptr.Validate", func(cb func()) string {
+			d := &rec{Name: "x", Tags: []string{"a"}}
+			s := z.Ptr(z.Struct(z.Schema{"name": z.String().TestFunc(func(v any, c z.Ctx) bool { cb(); return true }).Min(3), "tags": z.Slice(z.String().Min(2))}))
+			return canonM(s.Validate(&d))
+		}},
+		{"Ptr.Parse", func(cb func()) string {
+			var d *rec
+			s := z.Ptr(z.Struct(z.Schema{"name": z.String().Min(3), "tags": z.Slice(z.String().TestFunc(func(v any, c z.Ctx) bool { cb(); return true }).Min(2))}))
+			return canonM(s.Parse(map[string]any{"name": "x", "tags": []any{"a", "b"}}, &d))
+		}},
+		{"Custom.Parse", func(cb func()) string {
+			var d int
+			return canonL(z.CustomFunc(func(p *int, c z.Ctx) bool { cb(); return *p > 5 }, z.Message("small")).Parse(1, &d))
+		}},
+		{"Preprocess.Parse", func(cb func()) string {
+			var d []string
+			pre := z.Preprocess(func(v []any, c z.Ctx) ([]string, error) { cb(); return []string{"ok", "a"}, nil }, z.Slice(z.String().Min(2)))
+			return canonL(pre.Parse([]any{1}, &d))
+		}},
+		{"Struct.PostTransform", func(cb func()) string {
+			var d rec
+			s := z.Struct(z.Schema{"name": z.String(), "tags": z.Slice(z.String())}).PostTransform(func(p any, c z.Ctx) error { cb(); return fmt.Errorf("post failed") })
+			return canonM(s.Parse(map[string]any{"name": "x"}, &d))
+		}},
+	}
+	after := func() string {
+		var d rec
+		s := z.Struct(z.Schema{"name": z.String().Required().Min(3), "tags": z.Slice(z.String().Min(2))})
+		var x string
+		return canonM(s.Parse(map[string]any{"name": "x", "tags": []any{"ok", "a"}}, &d)) + canonL(z.String().Min(5).Parse("ab", &x))
+	}
+	p.ClearPools()
+	wantAfter := after()
+	for _, e := range eps {
+		sum.Evaluations++
+		p.ClearPools()
+		plain := e.run(func() {})
+		p.ClearPools()
+		nested := e.run(nest)
+		got := after()
+		if nested != plain {
+			sum.addViolation("C07", Mismatch{Case: e.name + " with a callback that runs another schema", What: "the result differs from the same call whose callback does not: " + nested + " vs " + plain})
+		} else if got != wantAfter {
+			sum.addViolation("C07", Mismatch{Case: "an unrelated call after " + e.name + " with a callback that runs another schema", What: "the later call differs from the same call on cleared pools: " + got + " vs " + wantAfter})
+		}
+		sum.Hist["nested_call_entry_points"]++
 	}
 	p.ClearPools()
 }
